@@ -194,39 +194,15 @@ func runC17(c *core.Ctx) {
 		// unregistration
 		ub, ucc := selectCase(f, seedT+".notifyUnregisteredPeer")
 		c.Need(ub != nil, "unregister case")
-		var delTable, delList []*core.CallSite
-		for _, cs := range f.CallsTo("builtin.delete") {
-			if !inClause(ucc, cs.Pos()) {
-				continue
-			}
-			switch fieldNameOf(f, cs.Call.Args[0]) {
-			case sessionsF:
-				delTable = append(delTable, cs)
-			case peerSessF:
-				delList = append(delList, cs)
-			}
+		// the peer received from the channel
+		var peer *types.Var
+		if as, isAs := ucc.Comm.(*ast.AssignStmt); isAs && len(as.Lhs) >= 1 {
+			peer = varOf(f, as.Lhs[0])
 		}
-		ok := len(delTable) == 1 && len(delList) == 1
-		if ok {
-			loop, _ := enclosingLoop(f, delTable[0].Pos()).(*ast.RangeStmt)
-			ok = loop != nil && inClause(ucc, loop.Pos())
-			if ok {
-				// ranges over the peer's list
-				src := loop.X
-				if v := varOf(f, src); v != nil {
-					for _, d := range assignsToVar(f, v) {
-						if d.RHS != nil {
-							src = d.RHS
-						}
-					}
-				}
-				ix, isIx := ast.Unparen(src).(*ast.IndexExpr)
-				ok = isIx && fieldNameOf(f, ix.X) == peerSessF
-				_, complete := loopDone(f, loop)
-				ok = ok && complete
-			}
-		}
-		c.Check(ok, "readerLoop|unregister deletes every listed session and the list", "T7 Pairing", posOf(blockEntry(ub)), "ranges over peerSessions[peer] deleting each session, then deletes the list", "unregistering a peer leaves sessions or the list behind")
+		c.Need(peer != nil, "the unregister case binds the received peer to a variable")
+		region := c17Region{F: f, From: blockEntry(ub), End: caseEnd(f, ub), In: func(p token.Pos) bool { return inClause(ucc, p) }}
+		ok, why := c17PeerDropped(region, peer, sessionsF, peerSessF, 2)
+		c.Check(ok, "readerLoop|unregister deletes every listed session and the list", "T7 Pairing", posOf(blockEntry(ub)), "every path through the unregister handler walks the whole of peerSessions[peer] deleting each session's table entry, and deletes the list entry (directly or in a helper that always does)", "unregistering a peer leaves sessions or the list behind: "+why)
 	})
 
 	c.Clause("C17.latch", func() {
@@ -284,10 +260,27 @@ func runC17(c *core.Ctx) {
 			}
 			c.Check(ok1 && ok2 && ok3 && ok4 && len(wb) > 0, "readerLoop|progress is recorded before the chunk is queued", "T7 Pairing", s.Pos(), "next and done are updated, and only then the state is stored into sessions[key], before each Enqueue", "a chunk can be queued while the stored session state lacks the latest next/done (the state is a value copy): a resumed or finished session repeats items or sends a second 'done' response")
 			// resp.Done carries the same flag
+			// (either may be copied from the other, or both from one variable; the response may be built
+			// field by field or by a composite literal)
+			const respDoneF = "gossip/basestream.Response.Done"
+			sets := map[string][]c17FieldSet{
+				respDoneF: c17FieldSets(f, respDoneF, cc.Pos(), cc.End()),
+				doneF:     c17FieldSets(f, doneF, cc.Pos(), cc.End()),
+			}
 			okD := false
-			for _, a := range assignments(f) {
-				if fieldNameOf(f, a.LHS) == "gossip/basestream.Response.Done" && doneRHS != nil && varOf(f, a.RHS) != nil && varOf(f, a.RHS) == varOf(f, doneRHS) {
-					okD = true
+			_ = doneRHS
+			for _, rd := range sets[respDoneF] {
+				if o, _ := precedesLocally(f, []core.Point{rd.Pt}, s.Pt); !o {
+					continue
+				}
+				src := c17ValueSource(f, rd.RHS, rd.Pt, sets, 4)
+				if src == nil {
+					continue
+				}
+				for _, sd := range sets[doneF] {
+					if o, _ := precedesLocally(f, []core.Point{sd.Pt}, s.Pt); o && c17ValueSource(f, sd.RHS, sd.Pt, sets, 4) == src {
+						okD = true
+					}
 				}
 			}
 			c.Check(okD, "readerLoop|response Done equals the session's done flag", "provenance", s.Pos(), "resp.Done and session.done are assigned from the same value", "the response's Done mark and the session's done latch can differ")
